@@ -22,7 +22,7 @@ RULE = ("exhaustive: every string over {a,' ',',','(',')','/'} up to alpha_len a
         "distinct = distinct text")
 ASSUMPTIONS = ["reference tokenizer hedmon/oracle/hedparse.py (40 lines) encodes the property text",
                "schema 8.3.0 is used to resolve tag forms for the short/long re-parse relation"]
-MIN_MONITOR_EVALS = {"tree-vs-reference": 1000, "unbalanced-empty-and-reported": 1000, "unbalanced-reported-in-sidecar": 200, "reparse-forms": 1000,
+MIN_MONITOR_EVALS = {"tree-vs-reference": 1000, "unbalanced-empty-and-reported": 1000, "unbalanced-reported-in-sidecar": 200, "unbalanced-part-of-combined": 200, "reparse-forms": 1000,
                      "no-exception": 1000}
 WATCHDOG_S = {"quick": 900, "thorough": 5400}
 
@@ -142,6 +142,22 @@ def check_text(text, rec, classify=True):
             if text.count("(") == text.count(")"):
                 key = "paren-order-unchecked"
             rec.violation("unbalanced parentheses but no PARENTHESES_MISMATCH issue", case, key=key)
+        # the same text as one part of an annotation combined from parts (what a table row is): nothing is lost
+        if zlib.crc32(text.encode("utf-8", "replace")) % 4 == 1:
+            rec.mon("unbalanced-part-of-combined")
+            try:
+                parts = [HedString("Red", schema), HedString(text, schema), HedString("Blue", schema)]
+                comb = HedString.from_hed_strings(parts)
+                cissues = comb.validate()
+                ctext = comb.get_original_hed_string()
+            except Exception as ex:                              # noqa
+                rec.violation(f"combining / validating parts with an unbalanced one raised {type(ex).__name__}", case)
+                return
+            if ctext != "Red," + text + ",Blue":
+                rec.violation("the text of an annotation combined from parts is not the parts joined by commas", case)
+            elif not any(i.get("code") == "PARENTHESES_MISMATCH" for i in cissues):
+                rec.violation("unbalanced part of a combined annotation but no PARENTHESES_MISMATCH issue", case,
+                              key="paren-order-unchecked" if text.count("(") == text.count(")") else None)
         # the same text as a sidecar entry: sidecar validation reports the mismatch too
         if not (set(text) & set("{}#")) and text.strip() and zlib.crc32(text.encode("utf-8", "replace")) % 4 == 0:
             import io
